@@ -7,7 +7,7 @@
 (***************************************************************************)
 EXTENDS PoolContract, SequencesExt
 
-CONSTANTS NSubs, NUnits, UsableSet, Mode, Grace, MaxEpoch
+CONSTANTS NSubs, NUnits, UsableSet, Mode, Grace
 
 Cfg == [nsubs |-> NSubs, usable |-> SetToSeq(UsableSet), mode |-> Mode, grace |-> Grace]
 
@@ -23,7 +23,6 @@ Init == g = G0(Cfg) /\ last = [op |-> "reload", sub |-> 1, arg |-> -1, ok |-> TR
 Next == \E e \in Answers :
           /\ EdgeClauses(Cfg, g, e) = {}
           /\ (e.op \in {"alloc"} /\ ~e.ok => e.unit = -1)
-          /\ (e.op = "advance" => g.epoch < MaxEpoch)
           /\ g' = Step(Cfg, g, e, g.held)
           /\ last' = e
 
@@ -36,6 +35,6 @@ Idem == [][ \A s \in Subs(Cfg) : (last'.op = "alloc" /\ last'.sub = s /\ last'.o
                                    => last'.unit = g.held[s] ]_<<g, last>>
 \* a renewed lease survives Grace further epochs
 Kept == [][ \A s \in Subs(Cfg) : (Mode = "lease" /\ last'.op = "advance" /\ g.held[s] # None
-                                    /\ g'.epoch - g.stamp[s] <= Grace) => g'.held[s] = g.held[s] ]_<<g, last>>
+                                    /\ g.age[s] + 1 <= Grace) => g'.held[s] = g.held[s] ]_<<g, last>>
 View == g
 =============================================================================
